@@ -44,6 +44,7 @@ EXTENDS Integers, Sequences, FiniteSets, TLC, Json, FiniteSetsExt, SequencesExt,
 CONSTANTS RectShapes,  \* set of <<h, w>>: rectangular meshes (the module defines their 4-connectivity itself)
           Graphs,      \* sequence of neighbour tables (a family of Delaunay neighbour graphs)
           C2Q,         \* set of coefficient^2 values in the unit u = 1/4  (c in {1/2,1,2,3} -> {1,4,16,36})
+          ZerothPairs, \* set of <<c2q, czq>>: neighbour / zeroth coefficient^2 of the constant-zeroth instances
           WeightPairs, \* set of <<a, b>>: inner / outer coefficient of the exact adaptive instances (integers)
           Patterns,    \* set of pattern ids selecting the bright pixels of the exact adaptive instances
           Splits,      \* sequence of split-cross instances [n, T, om, rows] with integer interpolation weights (unit 1/T)
@@ -255,7 +256,7 @@ Blank == [kind |-> "nbr", mesh |-> << "rect", 0, 0 >>, scheme |-> "", c2q |-> 0,
           split |-> 0, objs |-> << >>]
 NbrInsts ==
   { [Blank EXCEPT !.mesh = m, !.scheme = "constant", !.c2q = c] : m \in Meshes, c \in C2Q }
-  \cup { [Blank EXCEPT !.mesh = m, !.scheme = "constant_zeroth", !.c2q = c, !.czq = z] : m \in Meshes, c \in C2Q, z \in C2Q }
+  \cup { [Blank EXCEPT !.mesh = m, !.scheme = "constant_zeroth", !.c2q = cz[1], !.czq = cz[2]] : m \in Meshes, cz \in ZerothPairs }
   \cup { [Blank EXCEPT !.mesh = m, !.scheme = "zeroth", !.c2q = c] : m \in Meshes, c \in C2Q }
   \cup { [Blank EXCEPT !.mesh = m, !.scheme = "adaptive", !.wa = ab[1], !.wb = ab[2], !.pat = t] :
             m \in Meshes, ab \in WeightPairs, t \in Patterns }
@@ -378,15 +379,16 @@ SplitFormOnTernaryVectors ==
      IN \A x \in Ternary(sp.n) : LET q == QF(out.q, x, sp.n) IN q = SplitForm(sp.n, sp.T, sp.om, sp.rows, x) /\ q >= 0
 \* blocks
 BlocksInObjectOrder ==
-  IsBlocks => LET l == inst.objs ps == PsOf(l)
-              IN \A k \in DOMAIN l : \A a, b \in 1 .. ps[k] :
-                    out.q[Off(ps, k) + a][Off(ps, k) + b] = OwnTag(k, l[k])[a][b]
+  IsBlocks => LET l == inst.objs ps == PsOf(l) offs == Offs(ps)
+              IN \A k \in DOMAIN l :
+                    LET own == OwnTag(k, l[k])
+                    IN \A a, b \in 1 .. ps[k] : out.q[offs[k] + a][offs[k] + b] = own[a][b]
 OffBlocksAreZero ==
-  IsBlocks => LET ps == PsOf(inst.objs)
-              IN \A a, b \in 1 .. Total(ps) : ObjOf(ps, a) # ObjOf(ps, b) => out.q[a][b] = 0
+  IsBlocks => LET ps == PsOf(inst.objs) own == Owner(ps)
+              IN \A a, b \in 1 .. Total(ps) : own[a] # own[b] => out.q[a][b] = 0
 UnregularisedBlockIsZero ==
-  IsBlocks => LET l == inst.objs ps == PsOf(l)
-              IN \A k \in DOMAIN l : ~ l[k][2] => \A a, b \in 1 .. ps[k] : out.q[Off(ps, k) + a][Off(ps, k) + b] = 0
+  IsBlocks => LET l == inst.objs ps == PsOf(l) offs == Offs(ps)
+              IN \A k \in DOMAIN l : ~ l[k][2] => \A a, b \in 1 .. ps[k] : out.q[offs[k] + a][offs[k] + b] = 0
 ReducedIsRegularisedBlocks ==
   IsBlocks => out.r = ReducedDef(OwnsOf(inst.objs), PsOf(inst.objs), RegsOf(inst.objs))
 =============================================================================
